@@ -89,7 +89,7 @@ def probe(rec: core.Recorder, shared: Shared, cid, expected: bool, rng: random.R
     """Compare the library's view of the switch with the context's own shadow value."""
     from physt.config import config
 
-    kind = rng.choice(["read", "read", "add_array", "mul_array", "mul_neg", "div_neg", "idiv_neg", "set_negative", "isub_array", "read", "add_negative", "add_negative_rebinned", "scale_negative_operand"])
+    kind = rng.choice(["read", "read", "add_array", "mul_array", "mul_neg", "div_neg", "idiv_neg", "set_negative", "isub_array", "read", "add_negative", "add_negative_rebinned", "scale_negative_operand", "radd_zero_array", "sub_more_missed"])
     with shared.rec_lock:
         rec.mon("C19.probe")
     conflict = shared.conflicting(cid, expected)
@@ -128,6 +128,18 @@ def probe(rec: core.Recorder, shared: Shared, cid, expected: bool, rng: random.R
                             neg + other
                         else:
                             other += neg
+                    elif kind == "sub_more_missed":
+                        # every bin of the minuend holds enough, its under / overflow does not: the difference has negative (missed) contents
+                        import physt
+
+                        b_ = physt.h1([0.5, -1.0, 7.0, 8.0], np.array([0.0, 1.0, 2.0, 3.0]))
+                        if rng.random() < 0.5:
+                            h - b_
+                        else:
+                            h -= b_
+                    elif kind == "radd_zero_array":
+                        # an array on the left of + is an array-like operand too, whatever its values (zeros look like sum()'s start value)
+                        rng.choice([np.zeros(1), np.array([0]), np.array(0), np.zeros(3)]) + h
                     elif kind == "scale_negative_operand":
                         # a positive factor on contents that are negative already: the result has negative contents all the same
                         neg = negative_operand()
